@@ -160,6 +160,24 @@ def loadQuietly (P : Params) (L : PointLayouts) (file : Bytes) :
       | .error _ => (none, h.allocs ++ m.allocs)
       | .ok (mr, s') => (some (hr, some mr, s'), h.allocs ++ m.allocs)
 
+/-- `Store::status` on an existing `status.bin` with the given content. -/
+inductive StatusOutcome
+  | ok (r : Record)
+  /-- treated like a missing file (`Ok(None)`): rewritten at the end of the next run -/
+  | missing
+  /-- `Err(Failed)` with a logged error -/
+  | failed
+  deriving DecidableEq, Repr
+
+/-- `unreadableIsNone`: whether the source maps an EOF / format error of `StoredStatus::read` to
+`Ok(None)` (extracted; the pinned tree reported `Err(Failed)`, the C23 repair ignores the file). -/
+def readStatus (P : Params) (L : RecLayout) (unreadableIsNone : Bool) (file : Bytes) :
+    StatusOutcome × List Nat :=
+  let d := decodeRec P L file
+  match d.res with
+  | .ok (r, _) => (.ok r, d.allocs)
+  | .error _ => (if unreadableIsNone then .missing else .failed, d.allocs)
+
 /-- What `StoredPoint::_update` writes: header, manifest, objects. -/
 def encodePointFile (P : Params) (L : PointLayouts) (h m : Record) (objs : List Record) :
     Option Bytes := do
